@@ -74,6 +74,10 @@ func (c *MemoryCache[MetadataT]) VerifJanitorInterval() time.Duration { return c
 
 // VerifShift moves every entry's timestamps back by d: exactly "d has elapsed" for the entries.
 func (c *MemoryCache[MetadataT]) VerifShift(d time.Duration) {
+	for i := range c.locks {
+		c.locks[i].Lock()
+		defer c.locks[i].Unlock()
+	}
 	c.mu.RLock()
 	defer c.mu.RUnlock()
 	for _, e := range c.entries {
@@ -83,11 +87,7 @@ func (c *MemoryCache[MetadataT]) VerifShift(d time.Duration) {
 	}
 }
 
-func (c *MemoryCache[MetadataT]) VerifMemoryCap() int64 {
-	c.mu.RLock()
-	defer c.mu.RUnlock()
-	return c.memoryCap
-}
+func (c *MemoryCache[MetadataT]) VerifMemoryCap() int64 { return c.memoryCap.Get() }
 
 // ---- file backend
 
@@ -140,6 +140,10 @@ func (c *FileCache[MetadataT]) VerifDir() map[string]int64 {
 func (c *FileCache[MetadataT]) VerifJanitorInterval() time.Duration { return c.janitor.interval }
 
 func (c *FileCache[MetadataT]) VerifShift(d time.Duration) {
+	for i := range c.locks {
+		c.locks[i].Lock()
+		defer c.locks[i].Unlock()
+	}
 	c.mu.RLock()
 	defer c.mu.RUnlock()
 	for _, m := range c.entriesMetadata {
